@@ -1026,7 +1026,9 @@ func compositeFieldPure(fn *ssa.Function, v ssa.Value, comp string, valDep map[s
 
 // ---- EFFECT.nondet ---------------------------------------------------------------------------------------
 
-var nondetCallees = []string{"time.Now", "time.Since", "os.Getenv", "os.Getpid", "os.Hostname", "os.Getwd", "(*sync.Pool).Get", "(*sync.Pool).Put", "runtime.NumGoroutine"}
+var nondetCallees = []string{"time.Now", "time.Since", "os.Getenv", "os.Getpid", "os.Hostname", "os.Getwd", "(*sync.Pool).Get", "(*sync.Pool).Put", "runtime.NumGoroutine",
+	// object identity is not part of a Map's value: output that depends on addresses differs between equal Maps
+	"(reflect.Value).Pointer", "(reflect.Value).UnsafePointer", "(reflect.Value).UnsafeAddr"}
 
 func ruleNondet(p *Prog, r *Report, roots []string) {
 	const rule = "EFFECT.nondet"
@@ -1057,5 +1059,5 @@ func ruleNondet(p *Prog, r *Report, roots []string) {
 			}
 		})
 	}
-	r.OK(rule, "encoders", "no nondeterministic callee", "", fmt.Sprintf("%d functions reachable from the encoder entry points contain no goroutine/channel/time/rand/pool operation", n))
+	r.OK(rule, "encoders", "no nondeterministic callee", "", fmt.Sprintf("%d functions reachable from the encoder entry points contain no goroutine/channel/time/rand/pool/object-identity operation", n))
 }
